@@ -134,7 +134,22 @@ var c06Access = []struct {
 	{"sh.Only", func(d *c06Outer) int64 { return 300 }},
 	{"sh2.Name", func(d *c06Outer) int64 { return 100 }},
 	{"sh2.Only * z + sh2.Name", func(d *c06Outer) int64 { return 100 }},
+	// fields promoted through an UNEXPORTED embedded struct are promoted like any other:
+	// the shallower one wins over a deeper exported field of the same name
+	{"un.X", func(d *c06Outer) int64 { return 1 }},
+	{"un.Y * z + un.X", func(d *c06Outer) int64 { return 1 }},
+	{"un.Y", func(d *c06Outer) int64 { return 5 }},
+	{"un2.X", func(d *c06Outer) int64 { return 7 }},
 }
+
+type c06unexp struct{ X, Y int64 }
+type C06UDeep struct{ X int64 }
+type C06UMid struct{ C06UDeep }
+type c06UOuter struct {
+	c06unexp
+	C06UMid
+}
+type c06UOuter2 struct{ c06unexp }
 
 func c06Data() *c06Outer {
 	d := &c06Outer{
@@ -181,6 +196,8 @@ func H_C06_access() {
 	vars.Set("ni", &ni)
 	vars.Set("nm", &nm)
 	vars.Set("hold", &struct{ NS c06NamedSlice }{ns})
+	vars.Set("un", c06UOuter{c06unexp{1, 5}, C06UMid{C06UDeep{2}}})
+	vars.Set("un2", &c06UOuter2{c06unexp{7, 8}})
 	vars.Set("sh", c06Shadow{Name: 100, C06Shadowed: C06Shadowed{Name: 200, Only: 300}})
 	vars.Set("sh2", c06Shadow2{Name: 100, C06Shadowed: C06Shadowed{Name: 200, Only: 300}})
 	vars.SetFunc("cap", c04Capture(&got))
